@@ -28,6 +28,7 @@ type asyncCall struct {
 	reported bool
 	closer   bool // Close / Disconnect: reported as "close ok" / "disconnect <class>" when it returns within its own operation
 	fresh    bool
+	quitted  bool // quit was closed already
 }
 
 type exchange struct {
@@ -51,7 +52,9 @@ type sessionPort struct {
 	reader    chan rsResult // non-nil while a ReadSlices call is outstanding
 	lastRsErr error         // what the last ReadSlices returned, for ReadBackoff
 	holdEx    bool          // exchange channels are not read for now
-	strict    bool          // deadline calls fail on closed connections
+	slowPub   chan []string // result of the persisted publish parked in a gated Save
+	slowName  string
+	strict    bool // deadline calls fail on closed connections
 	lastBig   *mqtt.BigMessage
 	oldBuf    int
 	gen       int
@@ -88,7 +91,8 @@ func (p *sessionPort) close() {
 		}
 	}
 	for _, c := range p.calls {
-		if !c.over {
+		if !c.over && !c.quitted {
+			c.quitted = true
 			close(c.quit)
 		}
 	}
@@ -428,6 +432,41 @@ func (p *sessionPort) exec(f []string) []string {
 			p.oldBuf = old
 		}
 		return nil
+	case "vinit": // VolatileSession: the package's own store; no persistence events are visible
+		return p.blocking("init", func() []string {
+			c, err := mqtt.VolatileSession(string(unhex(f[1])), p.config(f[2], f[3], f[4]))
+			if err != nil {
+				return []string{"init err " + classOf(err)}
+			}
+			p.client = c
+			return []string{"init ok"}
+		}, false)
+	case "initx": // initx <cid> <variant>: InitSession with a Config that must be refused without a trace in the store
+		cfg := p.config("0", "4", "4")
+		switch f[2] {
+		case "nuluser":
+			cfg.UserName = "a\x00b"
+		case "baduser":
+			cfg.UserName = "\xff\xfe"
+		case "bigpass":
+			cfg.Password = make([]byte, 65536)
+		case "willnotopic":
+			cfg.Will.Message = []byte("m")
+		case "badwilltopic":
+			cfg.Will.Topic, cfg.Will.Message = "a\x00", []byte("m")
+		case "bigwill":
+			cfg.Will.Topic, cfg.Will.Message = "w", make([]byte, 65536)
+		case "nodialer":
+			cfg.Dialer = nil
+		}
+		return p.blocking("init", func() []string {
+			c, err := mqtt.InitSession(string(unhex(f[1])), genStore{p, p.gen}, cfg)
+			if err != nil {
+				return []string{"init err " + classOf(err)}
+			}
+			p.client = c
+			return []string{"init ok"}
+		}, false)
 	case "init":
 		return p.blocking("init", func() []string {
 			c, err := mqtt.InitSession(string(unhex(f[1])), genStore{p, p.gen}, p.config(f[2], f[3], f[4]))
@@ -576,10 +615,46 @@ func (p *sessionPort) exec(f []string) []string {
 			}
 			return []string{"readall ok " + hexs(b)}
 		}, false)
+	case "sgate": // the next Save parks inside the store until `sgo`
+		p.store.mu.Lock()
+		p.store.gate = true
+		p.store.mu.Unlock()
+		return nil
+	case "sgo":
+		p.store.mu.Lock()
+		p.store.gate = false
+		p.store.cond.Broadcast()
+		p.store.mu.Unlock()
+		out := p.flush(nil, true)
+		if p.slowPub != nil {
+			select {
+			case res := <-p.slowPub:
+				p.slowPub = nil
+				out = append(out, res...)
+			default:
+				// the store let the Save through and every goroutine is at rest: the publish is stuck
+				p.dead = "pal"
+				out = append(out, "hang "+p.slowName)
+			}
+		}
+		return out
 	case "pal", "peo":
 		topic, msg := string(unhex(f[2])), unhex(f[3])
 		cl := p.client
-		return p.blocking(f[0], func() []string {
+		run := p.blocking
+		p.store.mu.Lock()
+		gated := p.store.gate
+		p.store.mu.Unlock()
+		if gated && p.slowPub == nil {
+			// the call parks inside Persistence.Save, holding the sequence lock of its level
+			run = func(name string, fn func() []string, _ bool) []string {
+				ch := make(chan []string, 1)
+				p.slowPub, p.slowName = ch, name
+				go func() { ch <- fn() }()
+				return append(p.flush(nil, false), "blocked "+name)
+			}
+		}
+		return run(f[0], func() []string {
 			var ch <-chan error
 			var err error
 			switch {
@@ -638,7 +713,8 @@ func (p *sessionPort) exec(f []string) []string {
 		}
 	case "quit":
 		for _, c := range p.calls {
-			if c.tag == f[1] && !c.over {
+			if c.tag == f[1] && !c.over && !c.quitted {
+				c.quitted = true
 				close(c.quit)
 				// lockWrite notices quit at a ticker round, and then only when the
 				// select happens to pick it: wait for the return itself
